@@ -565,6 +565,8 @@ def _step_block(body, bi, e, untracked, assume=None):
                 elif nm.startswith('<std::option::Option'): e[dk] = 0
             elif SAME_VARIANT.search(T.strip_generics_tail(nm)) or SAME_VARIANT.search(nm):
                 if av is not None: e[dk] = av
+            elif item == 'transpose' and nm.startswith('std::option::Option::<'):
+                if av == 0: e[dk] = 0          # None.transpose() == Ok(None); Some(r).transpose() depends on r
             elif item in IS_VARIANT and re.match(r'^std::(option::Option|result::Result)::<', nm):
                 if av is not None: e[dk] = 1 if av == IS_VARIANT[item][1] else 0
     elif t['k'] == 'switch' and t['d']['k'] != 'const':
@@ -1857,3 +1859,14 @@ class Swapped:
     def __init__(self, g):
         self.g = g; self.switch_bb = g.switch_bb; self.true_bb = g.false_bb; self.false_bb = g.true_bb
     def describe(self): return 'negated ' + self.g.describe()
+
+
+def shrinking_calls(ctx, body, adt, field, self_param=1):
+    """calls that can remove elements from the collection self.<field> (retain / remove / clear / drain / take ..), also
+    through references and helpers that were inlined"""
+    out = []
+    for c in body.calls:
+        if ((c.item in SHRINK and T.MUT_CALL.search(c.name)) or c.item == 'retain_drop') and c.args and from_self_field(ctx, body, c.args[0], adt, field, self_param):
+            fs = [x for x in prov(ctx, body, c.args[0]) if x[0] != 'param' and 'v1::' in x[0]]
+            if all(x[1] == field and x[0].endswith(adt) for x in fs): out.append(c)
+    return out
